@@ -41,20 +41,65 @@ func genDescriptor(t *rapid.T, maxBody int) ref.Descriptor {
 		}
 		return ref.Descriptor{Tag: 0x05, Body: b}
 	case 3: // TTML subtitling (extension descriptor)
-		n := rapid.IntRange(5, min(20, maxBody)).Draw(t, "ttml-len")
-		b := genBytes(t, n, n, "ttml")
-		if rapid.IntRange(0, 3).Draw(t, "ttml-ext") != 0 {
-			b[0] = 0x20
+		if rapid.IntRange(0, 3).Draw(t, "ttml-ext") == 0 {
+			// some other extension descriptor (not TTML): arbitrary bytes behind another descriptor_tag_extension
+			n := rapid.IntRange(5, min(20, maxBody)).Draw(t, "ext-len")
+			b := genBytes(t, n, n, "ext")
+			if b[0] == 0x20 {
+				b[0] = 0x21
+			}
+			return ref.Descriptor{Tag: 0x7F, Body: b}
 		}
-		copy(b[1:4], rapid.StringMatching("[a-z]{3}").Draw(t, "ttml-lang"))
+		// TTML_subtitling_descriptor in the syntax of ETSI EN 303 560: tag extension 0x20, language, purpose + TTS
+		// suitability, flags + profile count, the profiles, optional qualifier, optional font list, service name
+		b := []byte{0x20}
+		b = append(b, rapid.StringMatching("[a-z]{3}").Draw(t, "ttml-lang")...)
+		b = append(b, rapid.Byte().Draw(t, "ttml-purpose"))
+		fonts, qual := rapid.Bool().Draw(t, "ttml-fonts"), rapid.Bool().Draw(t, "ttml-qualifier")
+		np := rapid.IntRange(0, 2).Draw(t, "ttml-profiles")
+		fl := byte(0x30) | byte(np)
+		if fonts {
+			fl |= 0x80
+		}
+		if qual {
+			fl |= 0x40
+		}
+		b = append(b, fl)
+		b = append(b, genBytes(t, np, np, "ttml-profile")...)
+		if qual {
+			b = append(b, genBytes(t, 4, 4, "ttml-qual")...)
+		}
+		if fonts {
+			nf := rapid.IntRange(0, 2).Draw(t, "ttml-nfonts")
+			b = append(b, byte(nf))
+			for i := 0; i < nf; i++ {
+				b = append(b, 0x80|byte(rapid.IntRange(0, 127).Draw(t, "ttml-font")))
+			}
+		}
+		name := rapid.StringMatching("[a-z]{0,3}").Draw(t, "ttml-name")
+		b = append(b, byte(len(name)))
+		b = append(b, name...)
+		if len(b) > maxBody {
+			b = []byte{0x20, b[1], b[2], b[3], b[4], 0x30, 0x00}
+		}
 		return ref.Descriptor{Tag: 0x7F, Body: b}
 	case 4: // Dolby Vision
-		n := rapid.IntRange(5, min(8, maxBody)).Draw(t, "dv-len")
+		// the Dolby Vision descriptor: version 1.0 (the only one defined), profile, level, rpu/el/bl flags, then - without a
+		// base layer - the dependency PID, then the compatibility id: 5 bytes with a base layer, 7 without
+		bl := rapid.Bool().Draw(t, "dv-bl-present") || maxBody < 7
+		n := 7
+		if bl {
+			n = 5
+		}
 		b := genBytes(t, n, n, "dv")
-		b[0], b[1] = 1, 0 // dv_version_major.minor 1.0, the only version the Dolby Vision descriptor is defined for
+		b[0], b[1] = 1, 0
 		profile := rapid.IntRange(0, 127).Draw(t, "dv-profile")
 		level := rapid.IntRange(0, 31).Draw(t, "dv-level")
-		num := uint16(profile)<<9 | uint16(level)<<3 | uint16(b[3]&7)
+		flags := uint16(b[3]&6) | 0
+		if bl {
+			flags |= 1
+		}
+		num := uint16(profile)<<9 | uint16(level)<<3 | flags
 		b[2], b[3] = byte(num>>8), byte(num)
 		return ref.Descriptor{Tag: 0xB0, Body: b}
 	case 5: // stream identifier
@@ -100,6 +145,9 @@ func genPMT(t *rapid.T, minStreams, maxStreams int) *ref.PMT {
 	p.Version = rapid.IntRange(0, 31).Draw(t, "version")
 	p.CurrentNext = rapid.Bool().Draw(t, "current-next")
 	p.PCRPID = int(genBits(t, 13, "pcr-pid"))
+	if p.PCRPID < 0x10 {
+		p.PCRPID += 0x10 // PIDs 0x0000-0x000F are reserved (ISO table 2-3); 0x1FFF stays: "no PCR"
+	}
 	budget := 1021 - 13 // section_length limit minus fixed part and CRC
 	p.ProgDescs = genDescriptors(t, 3, &budget)
 	n := rapid.IntRange(minStreams, maxStreams).Draw(t, "nstreams")
@@ -113,7 +161,9 @@ func genPMT(t *rapid.T, minStreams, maxStreams int) *ref.PMT {
 		} else {
 			s.StreamType = rapid.Byte().Draw(t, "stream-type-any")
 		}
-		for s.PID = int(genBits(t, 13, "es-pid")); used[s.PID]; s.PID = (s.PID + 1) & 0x1FFF {
+		// elementary PIDs from the range ISO table 2-3 allows them (0x0010-0x1FFE): a PMT that lists the PAT, CAT or null
+		// PID as an elementary stream is not well-formed, and a strict decoder or filter may refuse it
+		for s.PID = legalPID(int(genBits(t, 13, "es-pid"))); used[s.PID]; s.PID = nextLegalPID(s.PID) {
 		}
 		used[s.PID] = true
 		s.Descs = genDescriptors(t, 4, &budget)
@@ -169,7 +219,7 @@ func genCarrier(t *rapid.T, allowBefore bool) ref.Carrier {
 		nb := rapid.SampledFrom([]int{0, 0, 0, 1, 2}).Draw(t, "nbefore")
 		for i := 0; i < nb; i++ {
 			tid := rapid.SampledFrom([]byte{0x00, 0x01, 0x03, 0x40, 0x42, 0xC8, 0xFC, 0xFE}).Draw(t, "before-tid")
-			n := rapid.IntRange(0, 60).Draw(t, "before-len")
+			n := rapid.IntRange(5, 60).Draw(t, "before-len") // the long section syntax has five bytes between section_length and the data
 			if tid >= 0x40 && rapid.IntRange(0, 5).Draw(t, "before-long") == 0 {
 				// private sections (table ids from 0x40) may be up to 4093 bytes behind the length field (12 bits); the ISO tables stay within 1021
 				n = rapid.SampledFrom([]int{1017, 1018, 1019, 1020, 1021, 1500, 2044, 4089}).Draw(t, "before-long-len")
@@ -263,4 +313,23 @@ func genOtherPacket(t *rapid.T, avoid int) []byte {
 	}
 	b := p.MustBytes()
 	return b[:]
+}
+
+// legalPID maps the reserved PIDs (0x0000-0x000F, 0x1FFF) into the range a PMT or an elementary stream may use.
+func legalPID(pid int) int {
+	if pid < 0x10 {
+		return pid + 0x10
+	}
+	if pid >= 0x1FFF {
+		return 0x1FFE
+	}
+	return pid
+}
+
+// nextLegalPID steps through 0x0010..0x1FFE cyclically.
+func nextLegalPID(pid int) int {
+	if pid+1 > 0x1FFE {
+		return 0x10
+	}
+	return pid + 1
 }
